@@ -22,21 +22,27 @@ import EmitModel.Base.Assoc
 namespace EmitModel.Props
 open EmitModel.Assoc
 
-/-- The values the harness stores (`i64` and `String` captured through `ToValue`). -/
+/-- The values the harness stores (`i64` and `String` captured through `ToValue`) and the typed values the views
+    synthesise: `tok "t" n` a `Timestamp` (n nanoseconds after the epoch), `tok "T" n` a `TraceId`, `tok "S" n` a
+    `SpanId`, `tok "k" 0|1` `Kind::Span|Metric`. -/
 inductive Val where
   | int (i : Int)
   | str (s : String)
+  | tok (tag : String) (n : Nat)
   deriving DecidableEq, Repr, Inhabited
 
-/-- `Value::cast::<i64>()`: integers convert, text does not. -/
+/-- `Value::cast::<i64>()`: integers convert, text and the typed tokens do not. -/
 def Val.castInt : Val → Option Int
   | .int i => some i
   | .str _ => none
+  | .tok _ _ => none
 
-/-- `Display` of a value (template rendering writes holes with `{}`). -/
+/-- `Display` of a value (template rendering writes holes with `{}`); tokens never reach a rendered template in the
+    streams, their text is only a placeholder. -/
 def Val.display : Val → String
   | .int i => toString i
   | .str s => s
+  | .tok tag n => tag ++ toString n
 
 /-- One constructor per public collection. Keys are `String`s compared like Rust `str` (`Str: Ord` delegates to
     `str::cmp`, core/src/str.rs:216-220). -/
@@ -57,6 +63,15 @@ inductive P where
   | dedup (p : P)                               -- `Dedup<P>` (`p.dedup()`)
   | empty                                       -- `emit::Empty`
   | macro (es : List (String × Option Val))     -- `__PrivateMacroProps`: the runtime array `[(Str, Option<Value>); N]`
+  | extentPoint (ts : Nat)                      -- `Extent::point`     core/src/extent.rs:182-195
+  | extentRange (start end_ : Nat)              -- `Extent::range`
+  | spanCtxt (trace span parent : Option Nat)   -- `SpanCtxt`          src/span.rs:814-834
+  | spanView (name : String) (p : P)            -- `Span<P>`           src/span.rs:683-694
+  | metricView (name agg : String) (value : Val) (p : P)   -- `Metric<P>`   src/metric.rs:282-295
+  | frame (es : List (String × Val))            -- `ThreadLocalCtxtFrame` (a `HashMap`; `props: None` = no entries)
+                                                --                     src/platform/thread_local_ctxt.rs:97-118
+  | slot (p : P)                                -- `ctxt::Slot<T>` / `ErasedCurrent`: what `Option<C>` and `dyn ErasedCtxt`
+                                                -- hand to `with_current`; forward `for_each` only  core/src/ctxt.rs:280-287, 342-349
   deriving Inhabited
 
 /-- `is_unique`: the trait default is `false` (props.rs:90-92); overrides cited per arm. -/
@@ -77,12 +92,42 @@ def isUnique : P → Bool
   | .dedup _ => true           -- :307-309
   | .empty => true             -- :235-237
   | .macro _ => true           -- macro_hooks.rs:1054-1056
+  | .extentPoint _ => false    -- default
+  | .extentRange _ _ => false  -- default
+  | .spanCtxt _ _ _ => false   -- default
+  | .spanView _ _ => false     -- default
+  | .metricView _ _ _ _ => false -- default
+  | .frame _ => true           -- thread_local_ctxt.rs:115-117
+  | .slot _ => false           -- default
 
 /-- What `__PrivateMacroProps::for_each` yields: array order, `None` values skipped (macro_hooks.rs:1031-1043). -/
 def macroEnum : List (String × Option Val) → List (String × Val)
   | [] => []
   | (k, some v) :: rest => (k, v) :: macroEnum rest
   | (_, none) :: rest => macroEnum rest
+
+/-! ### The fixed pairs the views put in front of (or instead of) their inner collection -/
+
+def tsVal (n : Nat) : Val := .tok "t" n
+
+/-- `Extent` as props: `ts_start`, `ts` for a range; `ts` for a point (extent.rs:186-193). -/
+def extentPairs : Option Nat → Nat → List (String × Val)
+  | some start, end_ => [("ts_start", tsVal start), ("ts", tsVal end_)]
+  | none, ts => [("ts", tsVal ts)]
+
+/-- `SpanCtxt` as props: each id only when it is `Some`, in the order trace, span, parent (span.rs:819-831). -/
+def spanCtxtPairs (trace span parent : Option Nat) : List (String × Val) :=
+  (match trace with | some n => [("trace_id", Val.tok "T" n)] | none => []) ++
+  (match span with | some n => [("span_id", Val.tok "S" n)] | none => []) ++
+  (match parent with | some n => [("span_parent", Val.tok "S" n)] | none => [])
+
+/-- `Span<P>`: `evt_kind`, `span_name`, then the inner props (span.rs:688-693). -/
+def spanPairs (name : String) : List (String × Val) :=
+  [("evt_kind", .tok "k" 0), ("span_name", .str name)]
+
+/-- `Metric<P>`: `evt_kind`, `metric_name`, `metric_agg`, `metric_value`, then the inner props (metric.rs:287-294). -/
+def metricPairs (name agg : String) (value : Val) : List (String × Val) :=
+  [("evt_kind", .tok "k" 1), ("metric_name", .str name), ("metric_agg", .str agg), ("metric_value", value)]
 
 /-! ### Enumeration order -/
 
@@ -105,6 +150,13 @@ def enum : P → List (String × Val)
   | .dedup p => if isUnique p then enum p else collectFirst compare (enum p)
   | .empty => []
   | .macro es => macroEnum es
+  | .extentPoint ts => extentPairs none ts
+  | .extentRange a b => extentPairs (some a) b
+  | .spanCtxt t sp pa => spanCtxtPairs t sp pa
+  | .spanView name p => spanPairs name ++ enum p
+  | .metricView name agg v p => metricPairs name agg v ++ enum p
+  | .frame es => es
+  | .slot p => enum p
 def enumList : List P → List (String × Val)
   | [] => []
   | p :: ps => enum p ++ enumList ps
@@ -150,6 +202,16 @@ def forEach : {σ : Type} → P → Visitor σ → σ → σ × Bool
     foldUntil (fun s kv => match kv.2 with
                            | some v => f s kv.1 v
                            | none => (s, false)) s es
+  -- the views below are straight-line sequences of `for_each(key, value)?;` over their fixed pairs
+  | _, .extentPoint ts, f, s => foldUntil (fun s kv => f s kv.1 kv.2) s (extentPairs none ts)
+  | _, .extentRange a b, f, s => foldUntil (fun s kv => f s kv.1 kv.2) s (extentPairs (some a) b)
+  | _, .spanCtxt t sp pa, f, s => foldUntil (fun s kv => f s kv.1 kv.2) s (spanCtxtPairs t sp pa)
+  | _, .spanView name p, f, s =>                                         -- … then `self.props.for_each(&mut for_each)`
+    andThen (foldUntil (fun s kv => f s kv.1 kv.2) s (spanPairs name)) (fun s' => forEach p f s')
+  | _, .metricView name agg v p, f, s =>
+    andThen (foldUntil (fun s kv => f s kv.1 kv.2) s (metricPairs name agg v)) (fun s' => forEach p f s')
+  | _, .frame es, f, s => foldUntil (fun s kv => f s kv.1 kv.2) s es     -- thread_local_ctxt.rs:98-109
+  | _, .slot p, f, s => forEach p f s                                    -- ctxt.rs:281-286, 343-348
 def forEachList : {σ : Type} → List P → Visitor σ → σ → σ × Bool
   | _, [], _, s => (s, false)
   | _, p :: ps, f, s => andThen (forEach p f s) (fun s' => forEachList ps f s')
@@ -202,6 +264,13 @@ def get : P → String → Option Val
   | .dedup p, q => get p q                        -- :301-303
   | .empty, _ => none                             -- :231-233
   | .macro es, q => macroGet es q
+  | .extentPoint ts, q => scan (.extentPoint ts) q                  -- default
+  | .extentRange a b, q => scan (.extentRange a b) q                -- default
+  | .spanCtxt t sp pa, q => scan (.spanCtxt t sp pa) q              -- default
+  | .spanView name p, q => scan (.spanView name p) q                -- default
+  | .metricView name agg v p, q => scan (.metricView name agg v p) q  -- default
+  | .frame es, q => hashGet es q                                    -- thread_local_ctxt.rs:111-113
+  | .slot p, q => scan (.slot p) q                                  -- default
 
 /-- `Props::pull::<i64, _>` — default `get(key).and_then(cast)` (:81-83); `&P` (:141-143) and `AsMap` (:467-469)
     forward to the inner `pull`. -/
@@ -232,10 +301,25 @@ def WF : P → Prop
   | .dedup p => WF p
   | .empty => True
   | .macro es => (keys (macroEnum es)).Nodup
+  | .extentPoint _ => True
+  | .extentRange _ _ => True
+  | .spanCtxt _ _ _ => True
+  | .spanView _ p => WF p
+  | .metricView _ _ _ p => WF p
+  | .frame es => (keys es).Nodup
+  | .slot p => WF p
 def WFList : List P → Prop
   | [] => True
   | p :: ps => WF p ∧ WFList ps
 end
+
+/-! ### Ambient frames -/
+
+/-- `open_push` (thread_local_ctxt.rs:142-158) / `open_root` (:129-140, `cur = []`): every pair the pushed props
+    enumerate goes into `HashMap::insert`, so within one push the LAST value of a duplicated key stays. The map is
+    listed in key order (its real iteration order is arbitrary; see `hash`). -/
+def pushInto (cur : List (String × Val)) (pushed : List (String × Val)) : List (String × Val) :=
+  pushed.foldl (fun m kv => insertOverwrite compare m kv.1 kv.2) cur
 
 /-! ### The `ControlFlow::Break` observable and template rendering -/
 
